@@ -172,7 +172,8 @@ Tampers(pf, impl) ==
 Enabled(pf, impl, tm) ==
   CASE tm.op \in {"none", "drop", "otherkey"} -> TRUE
     [] tm.op = "leaf-rehash" -> Len(pf) > 0
-    [] OTHER -> /\ Applicable(pf[tm.i].n, tm.op)
+    [] OTHER -> /\ tm.i \in 1..Len(pf)
+                /\ Applicable(pf[tm.i].n, tm.op)
                 /\ (tm.mode = "mem" => impl = "trie2")
                 /\ (tm.op \in {"retype-l", "retype-r", "retype-c"} => impl = "trie2" /\ tm.mode # "rekey")
 
